@@ -209,6 +209,8 @@ class PlainUnit(PrettyIPython, SharedRegistryObject):
         return not (self == other)
 
     def compare(self, other, op) -> bool:
+        # raises ValueError for an object that belongs to another registry
+        self._check(other)
         self_q = self._REGISTRY.Quantity(1, self)
 
         if isinstance(other, NUMERIC_TYPES):
